@@ -105,7 +105,8 @@ theorem step_live {s : State} (hg : Good crc pl blob s) (a : Action) (hl : Live 
   | reopen =>
     simp only [step]
     split
-    · unfold openTorrent
+    · rw [openTorrent_eq_core hg]
+      unfold openTorrentCore
       split
       · intro _; left; rfl
       · simp only
@@ -117,8 +118,9 @@ theorem step_live {s : State} (hg : Good crc pl blob s) (a : Action) (hl : Live 
           exact absurd (Nat.le_antisymm List.count_le_length hn) hne
     · exact hl
 
-theorem init_live (mi : MetaInfo) : Live (init mi) := by
-  unfold init openTorrent
+theorem core_live (s : State) (hnc : s.inCache = false) : Live (openTorrentCore s) := by
+  unfold openTorrentCore
+  rw [hnc]
   simp only [Bool.false_eq_true, if_false]
   split
   · intro _; left; rfl
@@ -126,5 +128,9 @@ theorem init_live (mi : MetaInfo) : Live (init mi) := by
     intro hn
     simp only at hn
     exact absurd (Nat.le_antisymm List.count_le_length hn) hne
+
+theorem init_live (mi : MetaInfo) : Live (init mi) := by
+  unfold init openTorrent
+  split <;> exact core_live _ rfl
 
 end KrakenModel.Proof.C03
